@@ -536,8 +536,10 @@ Proof.
     apply IH in H1. subst p2.
     destruct ph; cbn [finish_element] in H0.
     + cbv [ret] in H0. injection H0 as _ <-. reflexivity.
-    + bind_inv H0 v p3 H2. cbv [ret] in H0. injection H0 as _ <-.
-      unfold source_slice in H2. apply lift_outcome_pos in H2. exact H2.
+    + match type of H0 with (if ?c then _ else _) _ = _ => destruct c end.
+      * cbv [ret] in H0. injection H0 as _ <-. reflexivity.
+      * bind_inv H0 v p3 H2. cbv [ret] in H0. injection H0 as _ <-.
+        unfold source_slice in H2. apply lift_outcome_pos in H2. exact H2.
 Qed.
 
 Lemma finish_pattern_pos st p r q : finish_pattern bs st p = Ok r q -> q = p.
